@@ -1,7 +1,7 @@
 //! C08 A SourceMapSource reproduces the attribution of the map it was given
 
 use proptest::prelude::*;
-use rspack_sources::{ConcatSource, RawSource, Source, SourceExt, SourceMapSource, WithoutOriginalOptions};
+use rspack_sources::{ConcatSource, RawSource, Source, SourceExt, SourceMapSource, SourceMapSourceOptions, WithoutOriginalOptions};
 use serde::{Deserialize, Serialize};
 
 use crate::build::source_map;
@@ -18,15 +18,39 @@ pub struct C08;
 pub struct Case {
   pub text: String,
   pub map: MapSpec,
+  /// name given to the SourceMapSource: 0, 6, 7 = "gen.js"; 1-3 = a file of M spelled with the sourceRoot applied;
+  /// 4-5 = a file of M as listed.  Without an inner map the name must not matter.
+  #[serde(default)]
+  pub name_sel: u8,
+  /// Some((original_source, remove_original_source)): built through the full `SourceMapSourceOptions` with
+  /// `inner_source_map: None`; neither field may change anything that is streamed or declared
+  #[serde(default)]
+  pub full: Option<(Option<String>, bool)>,
+}
+
+fn sms_name(c: &Case) -> String {
+  let n = c.map.sources.len();
+  match c.name_sel {
+    1..=3 if n > 0 => root_join(c.map.root.as_deref(), &c.map.sources[(c.name_sel as usize - 1) % n]),
+    4..=5 if n > 0 => c.map.sources[(c.name_sel as usize - 4) % n].clone(),
+    _ => "gen.js".to_string(),
+  }
 }
 
 fn strategy() -> BoxedStrategy<Case> {
   let cfg = GenCfg::positional();
-  (text(true, 14), abs_map(cfg), any::<bool>())
-    .prop_map(move |(t, am, dups)| {
+  (text(true, 14), abs_map(cfg), any::<bool>(), 0u8..8u8, 0u8..8u8)
+    .prop_map(move |(t, am, dups, name_sel, f)| {
       let am = if dups { am.with_dups() } else { am };
       let map = concretize_map(&t, &am, true);
-      Case { text: t, map }
+      let full = match f {
+        0 => Some((Some("text of a file that went through a loader\nsecond line;\n".to_string()), false)),
+        1 => Some((Some(t.clone()), true)),
+        2 => Some((None, true)),
+        3 => Some((None, false)),
+        _ => None,
+      };
+      Case { text: t, map, name_sel, full }
     })
     .boxed()
 }
@@ -91,8 +115,17 @@ impl Prop for C08 {
   fn check(&self, case: &Case) -> CheckResult {
     let (t, m) = (&case.text, &case.map);
     let r = guard(|| -> Result<CaseInfo, String> {
-      let mk_sms = || {
-        SourceMapSource::new(WithoutOriginalOptions { value: t.clone(), name: "gen.js".to_string(), source_map: source_map(m) })
+      let name = sms_name(case);
+      let mk_sms = || match &case.full {
+        None => SourceMapSource::new(WithoutOriginalOptions { value: t.clone(), name: name.clone(), source_map: source_map(m) }),
+        Some((original, remove)) => SourceMapSource::new(SourceMapSourceOptions {
+          value: t.clone(),
+          name: name.clone(),
+          source_map: source_map(m),
+          original_source: original.clone(),
+          inner_source_map: None,
+          remove_original_source: *remove,
+        }),
       };
       let mk_custom = || CustomSource { text: t.clone(), map: Some(source_map(m)) };
       let (_, end) = positions(t);
@@ -195,7 +228,10 @@ impl Prop for C08 {
           .class(m.segs.iter().any(|s| s.orig.is_none()), "1-field (unmapped) segment")
           .class(m.segs.windows(2).any(|w| (w[0].line, w[0].col) == (w[1].line, w[1].col)), "two segments at one position (the first has zero extent)")
           .class(m.root.as_deref().is_some_and(|r| !r.is_empty()), "non-empty sourceRoot")
-          .class(m.contents.is_empty(), "no sourcesContent"),
+          .class(m.contents.is_empty(), "no sourcesContent")
+          .class(case.full.is_some(), "built through the full options (inner_source_map: None)")
+          .class(name != "gen.js", "the SourceMapSource is named like a file of M")
+          .class(name != "gen.js" && matches!(&case.full, Some((Some(_), _))), "named like a file of M and given another original_source"),
       )
     });
     match r {
